@@ -19,6 +19,7 @@ func init() {
 			ruleR14(c)
 			ma.ruleR15(c)
 			ruleO2(c)
+			ruleV4(c)
 		},
 		explanation: "Decides that the request object shown to plugins is kept in step with the combined result: every accepted write into the reply has a twin write of the same item and value into the request view (and vice versa); removed and re-set keys are dropped from the view before new entries are appended; lists in the view only grow by append; the result constructors keep the caller's request pointer (identity, not a copy) and only replace nil members by empty ones; the request methods hand that same request object to every plugin in one sequential loop; for update requests the committed resources are written back to the request exactly when the update targets the container being updated.",
 		notDecided: []string{
